@@ -29,8 +29,8 @@ theorem C07_table (key : Str) :
     classifyRet (.key ['q']) key = .quit ∧
     (∀ k, k ≠ ['r'] → k ≠ ['c'] → k ≠ ['q'] → classifyRet (.key k) key = .error) ∧
     classifyRet .dflt key = classifyRet (.key key) key :=
-  ⟨rfl, rfl, rfl, rfl, fun s h1 h2 h3 => by unfold classifyRet; split <;> simp_all, rfl, rfl, rfl, rfl,
-   fun k h1 h2 h3 => by simp [classifyRet, h1, h2, h3], by simp [classifyRet]⟩
+  ⟨rfl, rfl, rfl, rfl, fun s => classifyRet_state_other s key, rfl, rfl, rfl, rfl,
+   fun k => classifyRet_key_other k key, classifyRet_dflt key⟩
 
 /-- the table read backwards: which answers lead to which action (for the answers `input()` can give:
 a state, `None`, a string, or the typed key itself) -/
@@ -38,14 +38,8 @@ theorem C07_table_inv (r : Ret) (key : Str) (hr : (∃ s, r = .state s) ∨ r = 
     (classifyRet r key = .noop ↔ r = .state "PROCESSED") ∧
     (classifyRet r key = .redraw ↔ r = .state "REDRAW" ∨ r = .key ['r'] ∨ (r = .dflt ∧ key = ['r'])) ∧
     (classifyRet r key = .close ↔ r = .state "CLOSE" ∨ r = .key ['c'] ∨ (r = .dflt ∧ key = ['c'])) ∧
-    (classifyRet r key = .quit ↔ r = .key ['q'] ∨ (r = .dflt ∧ key = ['q'])) := by
-  rcases hr with ⟨s, rfl⟩ | rfl | ⟨k, rfl⟩ | rfl
-  · unfold classifyRet; split <;> simp_all
-  · simp [classifyRet]
-  · simp only [classifyRet]
-    by_cases h1 : k = ['r'] <;> by_cases h2 : k = ['c'] <;> by_cases h3 : k = ['q'] <;> simp_all
-  · simp only [classifyRet]
-    by_cases h1 : key = ['r'] <;> by_cases h2 : key = ['c'] <;> by_cases h3 : key = ['q'] <;> simp_all
+    (classifyRet r key = .quit ↔ r = .key ['q'] ∨ (r = .dflt ∧ key = ['q'])) :=
+  classifyRet_inv r key hr
 
 /-- The classification that `countAndAct` acts on is the one of this very answer: when `input()` of
 `scr` returns `ret` for the typed `key` (the instruction `scrRet scr .input ret key` is next), the code
@@ -116,19 +110,8 @@ theorem C07_counter_deliver (c c' : Cfg) (h : c.deliver = some c') (s : Nat) : c
 of `s` itself leaves the counter of `s` alone -/
 theorem C07_counter_other (P : Prog) (c c' : Cfg) (h : StepTo P c c') (s : Nat)
     (h1 : ∀ rest, c.code ≠ .countAndAct s :: rest) (h2 : ∀ args rest, c.code ≠ .getInput2 s args :: rest) :
-    (c'.A.scr s).err = (c.A.scr s).err := by
-  rw [err_after h s]
-  unfold Cfg.errAfter
-  split
-  · rename_i scr _ hc
-    split
-    · subst_vars; exact absurd hc (h1 _)
-    · rfl
-  · rename_i scr _ _ hc
-    split
-    · rename_i hs; obtain ⟨rfl, _⟩ := hs; exact absurd hc (h2 _ _)
-    · rfl
-  · rfl
+    (c'.A.scr s).err = (c.A.scr s).err :=
+  err_other h s h1 h2
 
 /-! ### an exception inside `input()` -/
 
@@ -216,5 +199,23 @@ example : (runFuel (P4 A3) 3000 (c4 ["q", "c"])).2 = .returned ∧
       [.cb 0 .setup none none, .cb 0 .refresh none none, .cb 0 .show none none, .cb 0 .prompt none none,
        .cb 0 .input none (some ['q'])] := by
   decide +kernel
+
+open Ex in
+/-- an exception raised by `input()`: exactly one exception signal from the screen's input manager,
+the counter untouched; nobody handles the signal here, so the application is killed -/
+example : (runFuel P9 400 (c4 ["a"])).2 = .killed 1 ∧
+    ((runFuel P9 400 (c4 ["a"])).1.tr.filter (Tr.isExcFrom (.im 0))).length = 1 ∧
+    ((runFuel P9 400 (c4 ["a"])).1.A.scr 0).err = 0 := by
+  decide +kernel
+
+open Ex in
+/-- … and a reachable configuration in which the hypotheses of `C07_exception_in_input_step` hold: the
+scripted raise is next, and the code behind it reaches the catcher through the return of `input()` and
+the classification only (`pre = [scrRet …, classify 0]`) -/
+example : ∃ c, Reach P9 (c4 ["a"]) c ∧
+    (match c.code with
+     | .act .raiseErr :: .scrRet 0 .input _ _ :: .classify 0 :: .catchPI 0 :: _ => true
+     | _ => false) = true :=
+  ⟨(runFuel P9 45 (c4 ["a"])).1, reach_runFuel _ .init, by decide +kernel⟩
 
 end Simpleline
